@@ -549,6 +549,7 @@ Proof.
   - apply shape_set_flat.
   - destruct (alookup name (nest s N_ACTIONS)); [|apply shape_refl].
     match goal with |- context [tstore_add ?a ?b ?c ?d] => destruct (tstore_add a b c d) as [[[effs asg] incdec] accepted] end. simpl. apply shape_set_nest.
+  - destruct (alookup name (nest s N_ACTIONS)); [|apply shape_refl]. simpl. apply shape_set_nest.
   - apply shape_set_scal.
 Qed.
 
@@ -715,7 +716,7 @@ Proof.
   unfold acts_eqb.
   match goal with |- context [forallb ?g l] => assert (H : forallb g l = true) end.
   { apply forallb_forall. intros x Hx. apply existsb_exists. exists x. split; [exact Hx|].
-    unfold act_eqb. rewrite N.eqb_refl, keyed_sets_eqb_refl. reflexivity. }
+    unfold act_eqb. rewrite N.eqb_refl, !keyed_sets_eqb_refl. reflexivity. }
   rewrite H. reflexivity.
 Qed.
 
@@ -731,7 +732,7 @@ Definition one_action_state : pstate :=
      s_flat := [CList []; CList []; CList [(7, 3)%N]; CDict []; CDict []; CDict []; CList []; CList [];
                 CList []; CList []; CList []; CDict []];
      s_nest := [ [(20%N, CAct {| a_static := 30; a_sim := []; a_effs := [(0%N, [])]; a_asg := [(0%N, [])];
-                                 a_incdec := [(0%N, [])] |})]; []; []; []; [] ] |}.
+                                 a_incdec := [(0%N, [])]; a_ceffs := [] |})]; []; []; []; [] ] |}.
 Definition an_effect : op :=
   {| o_pre := None; o_body := OActEffect 20 0 {| e_id := 41; e_fl := 7; e_val := 50; e_kind := EAssign; e_skip := false |} |}.
 
@@ -764,7 +765,7 @@ Lemma aliased_original_diverges :
     abs (w_heap (fst r)) (w_c (fst r)) <> abs (w_heap (fst r)) (w_p (fst r)).
 Proof.
   (* cells: 0 = the action; 1 = first list (agent r1's actions), 2 = second list (agent r2's), both holding address 0 *)
-  exists [CAct {| a_static := 30; a_sim := []; a_effs := [(0%N, [])]; a_asg := [(0%N, [])]; a_incdec := [(0%N, [])] |};
+  exists [CAct {| a_static := 30; a_sim := []; a_effs := [(0%N, [])]; a_asg := [(0%N, [])]; a_incdec := [(0%N, [])]; a_ceffs := [] |};
           CRefs [(20%N, 0)]; CRefs [(20%N, 0)]],
          {| o_scal := [1; 0; 0; 0]%N; o_flat := []; o_nest := [1; 2] |}, [an_effect].
   split.
